@@ -15,7 +15,9 @@ package scorch
 //@ assume func index.IndexInternalID.Value(id)
 //@   pure
 //@   ensures result == idNum(id)
+// (idNum is a function of the id's bytes; NewIndexInternalID overwrites buf when it is large enough)
 //@ assume func index.NewIndexInternalID(buf, in)
+//@   modifies buf[*]
 //@   ensures idNum(result) == in && len(result) == 8
 //@ assume func index.IndexInternalID.Compare(a, b)
 //@   pure
@@ -28,10 +30,12 @@ package scorch
 //@ ghostfield segment.PostingsIterator.plast uint64
 //@ ghostfield segment.PostingsIterator.pdone bool
 //@ uf segCount(it segment.PostingsIterator) uint64
+// (postings and iterators are mutable and reused: "pure heap" results are only comparable
+// within one heap version)
 //@ assume func segment.Posting.Number(p)
-//@   pure
+//@   pure heap
 //@ assume func segment.PostingsIterator.BytesRead(it)
-//@   pure
+//@   pure heap
 //@ assume func segment.PostingsIterator.Next(it)
 //@   requires it != nil
 //@   modifies it.pstarted, it.plast, it.pdone
@@ -93,7 +97,7 @@ package scorch
 
 // Next: ids strictly ascending.
 //@ assume func segment.DiskStatsReporter.BytesRead(it)
-//@   pure
+//@   pure heap
 //@ func IndexSnapshotTermFieldReader.Next
 //@   props C08
 //@   mode int
@@ -132,4 +136,4 @@ package scorch
 //@   at return: ghost i.gseg = ite(result1 == nil && result0 != nil, i.segmentOffset, i.gseg)
 //@   ensures implies(result1 == nil, tfrShape(i) && tfrCursor(i))
 //@   ensures implies(result1 == nil && result0 != nil, i.gstarted && i.glast == idNum(result0.ID)) && implies(result0 == nil, i.gstarted == old(i.gstarted) && i.glast == old(i.glast) && i.gseg == old(i.gseg))
-//@   ensures implies(result1 == nil && result0 != nil, idNum(result0.ID) >= idNum(ID) && implies(old(i.gstarted), idNum(result0.ID) > old(i.glast)))
+//@   ensures implies(result1 == nil && result0 != nil, idNum(result0.ID) >= old(idNum(ID)) && implies(old(i.gstarted), idNum(result0.ID) > old(i.glast)))
